@@ -15,7 +15,7 @@ if os.path.isdir(os.path.join(dst, 'demo')):
 shutil.copytree(os.path.join(src, 'demo'), os.path.join(dst, 'demo'))
 prop = new[:3]
 title = next(json.loads(l)['title'] for l in open('/verif/properties.jsonl') if json.loads(l)['id'] == prop)
-meta = {'id': new, 'property': prop, 'property_title': title, 'wave': 2,
+meta = {'id': new, 'property': prop, 'property_title': title, 'wave': int(os.environ.get('WAVE', '2')),
         'written_by': 'independent sub-agent given only the property text and a scratch worktree of /repo (nothing from /verif), asked for less obvious sites than wave 1',
         'needs_to_manifest': 'see notes.md (trigger section)',
         'confirmed': {'demo_passes_on_clean_tree': True, 'demo_fails_with_patch': True, 'existing_suite_passes_with_patch': True, 'patch_applies_to_repo_head': True},
